@@ -155,8 +155,9 @@ def run(pid, tier, seed):
                 d[key] = d.get(key, 0) + val
             if k == 0:
                 cov["samples"] += rep["samples"][:2]
+            rerun = {"recorder": cmds[k][0][:-2], "trace_spec": "Trace_Session"}
             for v in rep["violations"]:
-                violations.append(v)
+                violations.append({**v, "rerun": rerun})
             for v in vs:
                 ev = events[v["i"] - 1]
                 d["verdicts"][v["kind"]] = d["verdicts"].get(v["kind"], 0) + 1
@@ -169,7 +170,7 @@ def run(pid, tier, seed):
                           "calls": [call_text(e["c"]) for e in run_events][-40:], "observed": {kk: ev.get(kk) for kk in ("res", "out", "panic")},
                           "meta": next((e.get("meta") for e in run_events if e["c"]["k"] == "reset"), None)}
                 if attribute(pid, fields):
-                    violations.append({"property": pid, "class": "trace_event_rejected_by_model", "features": {"fields": fields, "kind": v["kind"]}, "replay": replay})
+                    violations.append({"property": pid, "class": "trace_event_rejected_by_model", "features": {"fields": fields, "kind": v["kind"]}, "replay": replay, "rerun": rerun})
                 else:
                     unexplained.append(fields)
         cov["events_judged_by_tlc"] += d["judged"]
